@@ -147,11 +147,18 @@ def run(ctx):
         adds = [e for e in II.events if e.kind == 'store' and e.data.get('target') == 'attr' and e.data.get('name') == 'data'
                 and e.owner == fi.short]
         ctx.require(adds, f'{fi.short}: no accumulation into self.data found')
-        ok = len(adds) == 1 and adds[0].data.get('aug') == 'Add'
+        # (one addition per call: several statements are fine when their path conditions exclude one another, e.g. one per
+        #  early-returning branch)
+        excl = all(T.compare(T.mk_and([adds[i].cond(), adds[j].cond()]), T.FALSE)[0] == T.EQUAL
+                   for i in range(len(adds)) for j in range(i + 1, len(adds)))
+        ok = all(e.data.get('aug') == 'Add' for e in adds) and (len(adds) == 1 or excl)
         ctx.ob('AGREE', 'data is changed exactly once, by in-place addition', fi, ok, {'stores': [e.text() for e in adds]},
                node=adds[0].node)
         if ok:
-            ctx.formula('AGREE', 'the returned array is exactly what was added to the data', fi, rr.ret, adds[0].data['rhs'],
+            added = adds[-1].data['rhs']
+            for e in reversed(adds[:-1]):
+                added = T.mk_ite(e.cond(), e.data['rhs'], added)
+            ctx.formula('AGREE', 'the returned array is exactly what was added to the data', fi, rr.ret, added,
                         node=adds[0].node, construct='return noise')
         # share_index guard: raises IndexError when lengths differ
     rz = ctx.func(FR + 'zero_data')
